@@ -281,6 +281,14 @@ def loadback128_case(args):
         else:
             banks = all_banks
             args += ['--banks', '0,1,3,4,6,7']
+        slow = k % 10 == 9
+        if slow:
+            # the simulated ROM loader itself reads the bank from the tape (python=1, fast-load=0): one bank other than 0
+            banks = (rnd.choice((1, 3, 4, 6, 7)),)
+            if '--banks' in args:
+                args[args.index('--banks') + 1] = str(banks[0])
+            else:
+                args += ['--banks', str(banks[0])]
         loader = clear + 1
         if rnd.random() < 0.3:
             loader = rnd.randrange(begin, 30000)
@@ -295,7 +303,9 @@ def loadback128_case(args):
         o1 = _run_main(bin2tap.main, args + [binf, tapef])
         if 'EXC' in o1 or 'EXIT' in o1:
             return ('bin2tap', desc, o1[-200:])
-        o2 = _run_main(tap2sna.main, ['-c', 'machine=128', '--start', str(start)] + (['-c', 'python=1'] if k % 5 == 4 else []) + [tapef, z80f])
+        o2 = _run_main(tap2sna.main, ['-c', 'machine=128', '--start', str(start)] + (['-c', 'python=1'] if k % 5 == 4 else []) + (['-c', 'fast-load=0'] if slow else []) + [tapef, z80f])
+        if slow:
+            desc += ' [python=1 fast-load=0]'
         if not os.path.exists(z80f) or 'EXC' in o2 or 'EXIT' in o2:
             return ('tap2sna', desc, o2[-200:].replace('\n', '|'))
         try:
